@@ -40,6 +40,11 @@ def main():
         final_patch = out
         rc, out = sh("cargo test --offline %s 2>&1 | grep -E '^test result|FAILED|^error' " % fflag, WT, env)
         ok_suite = "FAILED" not in out and "error" not in out and "test result: ok" in out
+        if feats:
+            # the pinned suite is the one without the feature: it must stay green as well
+            rc, out0 = sh("cargo test --offline 2>&1 | grep -E '^test result|FAILED|^error' ", WT, env)
+            ok_suite = ok_suite and "FAILED" not in out0 and "error" not in out0 and "test result: ok" in out0
+            out = out + out0
         log["suite_with_patch"] = out.strip().splitlines()
         print("suite with patch:", "PASS" if ok_suite else "FAIL")
         # install demo
